@@ -94,3 +94,24 @@ def generic_inputs(rng, n_random=6):
     pts = [0.0, 1.0, -1.0, 1e-8, -1e-8, 30.0, -30.0, 0.5, -0.5]
     pts += [rng.uniform(-5, 5) for _ in range(n_random)]
     return pts
+
+
+# ------------------------------------------------------------------ Scan = Chain of the unstacked layers (C08's defining equivalence)
+def unstack_scan(scan):
+    """the list of layers a `Scan` iterates over: every array leaf sliced along axis 0"""
+    params, static = eqx.partition(scan.bijection, eqx.is_array)
+    n = jax.tree_util.tree_leaves(params)[0].shape[0]
+    return [eqx.combine(jax.tree_util.tree_map(lambda l: l[i], params), static) for i in range(n)]
+
+
+def scan_vs_chain_mismatches(scan, x, cond=None, tol=1e-9):
+    """Compare the real `Scan` with the real `Chain` of its unstacked layers (Chain is tied to the model by
+    regeneration: Gen/Combinators.lean) on all four methods; returns a list of (method, got, want)."""
+    chain = B.Chain(unstack_scan(scan))
+    out = []
+    for m in METHODS:
+        a = call(scan, m, x, cond)
+        b = call(chain, m, x, cond)
+        if len(a) != len(b) or not vlib.allclose(a, b, rtol=tol, atol=tol):
+            out.append((m, a, b))
+    return out
